@@ -20,12 +20,14 @@ def run(ctx, sess):
     P = sess.prog('default')
     ctx.rule('C03.a', 'last valid chunk: success of the backward scan requires the header-CRC equal edge and a zero result of the checked chunk read of that candidate')
     ctx.rule('C03.b', 'repair sequence: on every path from the not-closed branch to the published instance: truncate, rewrite last chunk, pointer-repair loop, FSR-rebuild loop, END, close, reopen read-only, in this order; loop bodies skip only undefined slots / undefined tracks / non-FSR signals')
+    ctx.rule('C03.e', 'pair commit in pointer repair: a chunk becomes the chunk whose link is cut only after every read of its INDEX+SUMMARY pair succeeded (an index whose summary is missing is never accepted as last valid)')
     ctx.rule('C03.c', 'chunk then link: every data chunk is linked only after it was completely written')
     ctx.rule('C03.d', 'truncation is reachable only from the repair branch of jls_rd_open')
     ra(ctx, P)
     seq = rb(ctx, P)
     rc_(ctx, P)
     rd(ctx, P)
+    re_(ctx, P)
 
 
 def ra(ctx, P):
@@ -240,3 +242,53 @@ def rd(ctx, P):
         rds = [c for c in f.calls('jls_core_rd_chunk') if ev_dominates(c, t)]
         sk = [c for c in f.calls('jls_raw_chunk_seek') if rds and ev_dominates(c, rds[-1])]
         ctx.ob('C03.d', bool(rds) and bool(sk), f.name, 'truncate right after re-reading the last valid chunk', t.where(), 'seek -> checked read -> truncate: %s' % (bool(rds) and bool(sk)))
+
+
+def re_(ctx, P):
+    f = P.fn('jls_track_repair_pointers')
+    ctx.saw(f)
+    lp = loops(f)
+    reads = list(f.calls('jls_core_rd_chunk'))
+    zero = {id(c): zero_edges_of_call(f, c) for c in reads}
+    n = 0
+    seen = set()
+    for uc in f.calls('jls_core_update_chunk_header'):
+        a = strip_casts(uc.args[1])
+        if a.get('op') == 'un' and a['o'] == '&':
+            a = strip_casts(a['k'][0])
+        if a.get('op') != 'ref' or a['name'] in seen:
+            continue
+        X = a['name']
+        seen.add(X)
+        # the loop (outermost) in which X is committed
+        commits = [ev for ev in f.stores() if ev.k == 'store' and strip_casts(ev.store_parts()[0]).get('op') == 'ref' and strip_casts(ev.store_parts()[0]).get('name') == X
+                   and ev.store_parts()[2] == '=' and ev.store_parts()[1] is not None and strip_casts(ev.store_parts()[1]).get('t', '').startswith('s:')]
+        for cm in commits:
+            # does the committed value come from the chunk just read?
+            rhs = strip_casts(cm.store_parts()[1])
+            src_is_read = False
+            p_ = f.path(rhs)
+            if p_ is not None and p_.last_field() == 'chunk_cur':
+                src_is_read = True
+            elif rhs.get('op') == 'ref':
+                for d in f.stores():
+                    if strip_casts(d.store_parts()[0]).get('name') == rhs['name'] and d.store_parts()[1] is not None:
+                        pd = f.path(strip_casts(d.store_parts()[1]))
+                        if pd is not None and pd.last_field() == 'chunk_cur':
+                            src_is_read = True
+            if not src_is_read:
+                continue
+            n += 1
+            inloops = [h for h, body in lp.items() if cm.block.id in body]
+            body = set()
+            for h in inloops:
+                if len(lp[h]) > len(body):
+                    body = lp[h]
+            loop_reads = [c for c in reads if c.block.id in body]
+            need = 2 if len(loop_reads) >= 2 else 1
+            cds = control_deps_transitive(f, cm.block.id)
+            got = sum(1 for c in loop_reads if zero[id(c)] & cds)
+            ctx.ob('C03.e', got >= need, f.name, 'commit of `%s` after %d successful read(s)' % (X, need), cm.where(),
+                   'control dependent on %d successful chunk reads' % got if got >= need else
+                   '`%s` is committed after %d of the %d reads of the INDEX+SUMMARY pair: an index whose summary was lost stays linked and repair later parses it as data' % (X, got, need))
+    ctx.floor('chunk commits in pointer repair', n, 2)
